@@ -102,6 +102,8 @@ pub fn stmts() -> ZooLang {
             "a + 1 ~b;", "a + 1 /*c*/;", "a + 1 ~b ~c ;", "a + 1 #c\n;",
             // an extra directly in front of a child that carries a per-production alias (named and anonymous aliases)
             "a /*c*/ ... b;", "a #c\n... b;", "a ~x ... b;", "let /*c*/ a = 1;", "$ /*c*/ a; % ~x b;", "& a;", "& /*c*/ a; & ~x b; & #c\n c;", "a .. /*c*/ b ... /*d*/ c;",
+            // shadowing: a parameter, a let in the function's block and a let in an inner block share one name
+            "fn f(a) { let a = 1; a; } a;", "let a = 1; fn f(a) { a; { let a = 2; a; } a; }",
             // a rule that ends in a repetition
             "use a", "use a b c d", "use a b c d e f g h  ", "use a b; use c d e\nuse use", "{ use a b c d }",
         ],
@@ -390,7 +392,9 @@ pub fn tmpl() -> ZooLang {
 pub fn tagl() -> ZooLang {
     let g = G::new("tagl")
         .rule("source", rep(sym("_item")))
-        .rule("_item", choice(vec![sym("fn_def"), sym("class_def"), sym("call"), sym("let")]))
+        .rule("_item", choice(vec![sym("fn_def"), sym("class_def"), sym("call"), sym("let"), sym("lambda")]))
+        // a scope whose LAST token is a reference: `\\x => x`
+        .rule("lambda", seq(vec![s("\\"), field("param", sym("ident")), s("=>"), field("body", sym("ident"))]))
         .rule("fn_def", seq(vec![s("fn"), field("name", sym("ident")), field("params", sym("params")), field("body", sym("block"))]))
         .rule("params", seq(vec![s("("), sep(",", sym("ident")), s(")")]))
         .rule("class_def", seq(vec![s("class"), field("name", sym("ident")), field("body", sym("block"))]))
@@ -405,11 +409,12 @@ pub fn tagl() -> ZooLang {
         .extras(vec![pat("\\s"), sym("comment"), sym("block_comment")]);
     ZooLang {
         name: "tagl", spec: spec(g, None),
-        lexemes: vec!["fn", "class", "let", "f", "é", "skip", "(", ")", "{", "}", ";", ",", "# d\n", "\n", " ", "/*é*/"],
+        lexemes: vec!["fn", "class", "let", "f", "é", "skip", "(", ")", "{", "}", ";", ",", "# d\n", "\n", " ", "/*é*/", "\\", "=>"],
         seeds: vec![
             "", "fn f() {}", "# doc\nfn f(a, b) { a(); g(b); }", "class C { fn m() { m(); } }", "f(); g(x, y);", "let f; f(); g();", "fn f(x) { x(); y(); } x();",
             "# one\n# two\nfn f() {}", "# far\n\nfn f() {}", "skip(); f(); skip();", "fn é() { é(); } /*😀*/ naïve(); /*é*/ f();", "fn f( {", "f(;", "fn f() { let g; g(); { g(); } } g();",
             "f(); g(); h(); i();", "  f();\r\n  g();\r\n",
+            "\\x => x", "\\x => y", "fn f(a) { \\b => a \\c => c }", "let x; \\y => x", "\\x => x f(); x();", "{ let g; \\h => g }", "\\f => f\n",
         ],
         skippable: b" \t\r\n", has_scanner: false,
     }
